@@ -320,6 +320,7 @@ def writeChar (c : Ctx) (text : Str) (quoted : Bool) (allowText : Bool) : W :=
 /-- `write_numb(context, value)` on the number's text and quoted flag -/
 def writeNumb (c : Ctx) (text : Str) (quoted : Bool) : W :=
   if quoted then writeChar c text true true
+  else if text.length > LINE then writeChar c text false true      -- "does not fit on any line": a (folded) text field
   else match writeULiteral c text none true with
     | none => .error ErrCodes.CIF_OVERLENGTH_LINE
     | some (o, c') => if o.isEmpty then .error ErrCodes.CIF_ERROR else .ok (o, c')
